@@ -1,5 +1,6 @@
 """C14: GenBank and GFF3 descriptions of the same genes give the same mutations."""
 import common as cm
+import cmdlayer
 import gen
 import anno
 import vcommon
@@ -78,3 +79,16 @@ def post_go(ctx, cases, obs):
             if c not in bad:
                 bad.append(c)
     return bad
+
+
+def extra(ctx, obl, cases, obs):
+    """the command through the built binary (cmd/*.go): binary = library entry point, and the option handling the command does itself"""
+    n = 2 if ctx.tier == "quick" else 12
+    _cmd_state["binary_runs"] = cmdlayer.variants_layer(ctx, n)
+
+
+_cmd_state = {}
+
+
+def coverage_extra(ctx):
+    return {"binary_runs": _cmd_state.get("binary_runs", 0)}
